@@ -253,3 +253,72 @@ func zzSecondCER(acceptable bool) *diam.Message {
 	m.NewAVP(avp.AuthApplicationID, avp.Mbit, 0, datatype.Unsigned32(id))
 	return m
 }
+
+// zzAdvertisesKind: the CEA carries the id in an AVP of the given kind (top level or in a
+// Vendor-Specific-Application-Id group).
+func zzAdvertisesKind(cea *diam.Message, id uint32, acct bool) bool {
+	code := uint32(avp.AuthApplicationID)
+	if acct {
+		code = avp.AcctApplicationID
+	}
+	match := func(a *diam.AVP) bool {
+		v, ok := a.Data.(datatype.Unsigned32)
+		return a.Code == code && ok && uint32(v) == id
+	}
+	for _, a := range cea.AVP {
+		if match(a) {
+			return true
+		}
+		if g, ok := a.Data.(*diam.GroupedAVP); ok && a.Code == avp.VendorSpecificApplicationID {
+			for _, x := range g.AVP {
+				if match(x) {
+					return true
+				}
+			}
+		}
+	}
+	return false
+}
+
+// zzC11_types: the local dictionary declares one application id under two types (loaded as two
+// further dictionaries, in a case-split order); a CER sharing it as Auth, as Acct or as both is
+// accepted and the success CEA advertises the id under every kind it shares.
+func zzC11_types() {
+	first := vChoice("loadedFirst", 2)
+	for k := 0; k < 2; k++ {
+		typ := [2]string{"auth", "acct"}[(first+k)%2]
+		lerr := dict.Default.Load(vDictFile(&dict.File{App: []*dict.App{{ID: 1003, Type: typ, Name: "zz-" + typ}}}))
+		vAssume(lerr == nil)
+	}
+	st := New(zzSettings(true))
+	c := &zzConn{local: "192.0.2.77:3868"}
+	m := diam.NewRequest(diam.CapabilitiesExchange, 0, dict.Default)
+	zzIDs(m)
+	m.NewAVP(avp.OriginHost, avp.Mbit, 0, datatype.DiameterIdentity("peer.example"))
+	m.NewAVP(avp.OriginRealm, avp.Mbit, 0, datatype.DiameterIdentity("peers"))
+	m.NewAVP(avp.HostIPAddress, avp.Mbit, 0, datatype.Address([]byte{10, 0, 0, 1}))
+	m.NewAVP(avp.VendorID, avp.Mbit, 0, datatype.Unsigned32(99))
+	m.NewAVP(avp.ProductName, 0, 0, datatype.UTF8String("peer"))
+	kinds := 1 + vChoice("kinds", 3) // bit 0: Auth-Application-Id 1003, bit 1: Acct-Application-Id 1003
+	if kinds&1 != 0 {
+		m.NewAVP(avp.AuthApplicationID, avp.Mbit, 0, datatype.Unsigned32(1003))
+	}
+	if kinds&2 != 0 {
+		m.NewAVP(avp.AcctApplicationID, avp.Mbit, 0, datatype.Unsigned32(1003))
+	}
+	st.ServeDIAM(c, m)
+	cea := zzLastAnswer(c)
+	vAssert(len(c.written) == 1 && cea != nil, "the CER is answered")
+	if cea == nil {
+		return
+	}
+	rc, _ := zzU32AVP(cea, avp.ResultCode)
+	vAssert(rc == diam.Success && c.closed == 0, "a CER sharing an application (same id, same type) is accepted")
+	if kinds&1 != 0 {
+		vAssert(zzAdvertisesKind(cea, 1003, false), "success CEA advertises the shared auth application")
+	}
+	if kinds&2 != 0 {
+		vAssert(zzAdvertisesKind(cea, 1003, true), "success CEA advertises the shared acct application")
+	}
+	vReach("C11_types")
+}
